@@ -8,6 +8,7 @@ import (
 	"net/url"
 	"os"
 	"path"
+	"strconv"
 	"strings"
 
 	"github.com/go-openapi/spec"
@@ -612,6 +613,7 @@ func replayC12(input json.RawMessage) *oracleResult {
 type c11Input struct {
 	Loc      string `json:"location"`
 	Spelling string `json:"spelling"`
+	Cwd      string `json:"cwd,omitempty"` // make this the working directory first: a relative spelling is taken against the CURRENT one
 }
 
 func checkC11(in c11Input) (msg, shape string, obs, exp interface{}) {
@@ -620,6 +622,13 @@ func checkC11(in c11Input) (msg, shape string, obs, exp interface{}) {
 			msg, shape = fmt.Sprintf("normalizeBase panics: %v", r), "panic"
 		}
 	}()
+	if in.Cwd != "" {
+		old, _ := os.Getwd()
+		if os.MkdirAll(in.Cwd, 0o755) != nil || os.Chdir(in.Cwd) != nil {
+			return
+		}
+		defer os.Chdir(old)
+	}
 	want := spec.VerifNormalizeBase(in.Loc)
 	got := spec.VerifNormalizeBase(in.Spelling)
 	if got != want {
@@ -664,17 +673,25 @@ func oracleC11(r *rng, n int, tier string) *oracleResult {
 	}
 	for _, loc := range c11Locations {
 		for _, sp := range spellings(loc, cwd, r, per+n/len(c11Locations)) {
-			try(c11Input{loc, sp})
+			try(c11Input{Loc: loc, Spelling: sp})
 		}
 	}
 	// relative spellings against the working directory
 	for _, rel := range []string{"root.json", "a/root.json", "./a/../root.json", "a//b/root.json", "../root.json"} {
 		abs := "file://" + path.Join(cwd, rel)
-		try(c11Input{abs, rel})
-		try(c11Input{abs, "./" + rel})
-		try(c11Input{abs, rel + "#/x"})
+		try(c11Input{Loc: abs, Spelling: rel})
+		try(c11Input{Loc: abs, Spelling: "./" + rel})
+		try(c11Input{Loc: abs, Spelling: rel + "#/x"})
 	}
-	res.Samples = []interface{}{c11Input{"file:///r/a/root.json", "FILE:/r/./a/x/../root.json#/definitions/x"}}
+	// ... and against OTHER working directories later in the life of the process: the anchoring is not a one-time decision
+	for _, d := range []string{"wd-one", "wd-two/deeper"} {
+		dir := path.Join(os.TempDir(), "verif-c11-"+strconv.Itoa(os.Getpid()), d)
+		for _, rel := range []string{"root.json", "a/root.json", "./a/../root.json", "../root.json"} {
+			try(c11Input{Loc: "file://" + path.Join(dir, rel), Spelling: rel, Cwd: dir})
+		}
+	}
+	os.RemoveAll(path.Join(os.TempDir(), "verif-c11-"+strconv.Itoa(os.Getpid())))
+	res.Samples = []interface{}{c11Input{Loc: "file:///r/a/root.json", Spelling: "FILE:/r/./a/x/../root.json#/definitions/x"}}
 	return dedupFailures(res)
 }
 
@@ -702,6 +719,19 @@ func refView(r spec.Ref) string {
 		r.HasFragmentOnly, r.HasFileScheme, r.HasFullFilePath, r.IsRoot(), r.GetPointer().String())
 }
 
+// authorityOf: the text between "//" and the next "/", "?" or "#" of a reference as written ("" when there is no authority).
+func authorityOf(ref string) string {
+	i := strings.Index(ref, "//")
+	if i < 0 || strings.ContainsAny(ref[:i], "/?#") {
+		return ""
+	}
+	rest := ref[i+2:]
+	if j := strings.IndexAny(rest, "/?#"); j >= 0 {
+		rest = rest[:j]
+	}
+	return rest
+}
+
 func checkC13(in c13Input) (msg, shape string, obs, exp interface{}) {
 	defer func() {
 		if r := recover(); r != nil {
@@ -712,8 +742,8 @@ func checkC13(in c13Input) (msg, shape string, obs, exp interface{}) {
 	if err != nil {
 		return
 	}
-	if u := r.GetURL(); u != nil && (u.User != nil || u.Opaque != "" || strings.Contains(u.Host, "[")) {
-		return // outside the quantifier: authority is a host with at most one port
+	if u := r.GetURL(); u != nil && (u.User != nil || u.Opaque != "" || strings.Contains(u.Host, "[") || strings.Count(authorityOf(in.Ref), ":") > 1) {
+		return // outside the quantifier: authority is a host with at most one port ("http:h.io:80" has two colons)
 	}
 	s := r.String()
 	r2, err := spec.NewRef(s)
@@ -790,6 +820,11 @@ func oracleC13(r *rng, n int, tier string) *oracleResult {
 		} else {
 			cartesian(tokens, k, func(t []string) { try(strings.Join(t, "")) })
 		}
+	}
+	// blanks and JSON-special characters at the edges and in the parts net/url prints verbatim (query, opaque part)
+	for _, s := range []string{"other.json?rev=2 ", "?q= ", " other.json", "other.json ", "#/a ", "mailto:a b ", "a.json?x=1\u00a0", "a.json?note=caf\u00e9\u2003",
+		"HTTP://Example.COM:80/specs//pets.json?title=Pet Store ", "a.json?q=\"v\"", "urn:x\\y", "a.json?q=\t", "\ta.json", "a.json?x=1\n", "#/x%25", "#/x%2541", "#/latin%E9"} {
+		try(s)
 	}
 	for i := 0; i < n*4; i++ {
 		try(randomRefString(r))
